@@ -39,30 +39,57 @@ EntRec(e) == Line.ents[CHOOSE i \in EntIdx(e) : TRUE]
 
 PreRec(row) == [kind |-> row[3], id |-> SetupId(row[1]), actor |-> row[2]]
 
+IsWalEnt(e) == HasEnt(e) /\ EntRec(e).wal
+
 ResetCmds(e) ==
     IF ~HasEnt(e) \/ ~EntRec(e).exists THEN <<>>
     ELSE LET r == EntRec(e) IN
-         [v \in 0..(r.next - 1) |->
-            IF v = 0 THEN InitRec(SetupId(0), SetupThread)
-            ELSE PreRec(r.pre[v])]
+         IF r.wal
+         THEN [v \in r.snapver..(r.next - 1) |->
+                 OkRec(SetupId(v), SetupThread)]
+         ELSE [v \in 0..(r.next - 1) |->
+                 IF v = 0 THEN InitRec(SetupId(0), SetupThread)
+                 ELSE PreRec(r.pre[v])]
+
+WalIdSeq(a, b) == [i \in 1..(b - a) |-> SetupId(a + i - 1)]
+WalState(r) == [ver |-> r, eff |-> WalIdSeq(0, r)]
 
 ResetState(e, ver) ==
     IF ver = 0 THEN None ELSE ReplayToIn(InitState, ResetCmds(e), ver)
 
 ResetFull(e) == ReplayFromIn(InitState, ResetCmds(e))
 
+\* The initial condition itself must be a state of the protocol: keys
+\* contiguous, the history listing complete.
+ResetSane(e) ==
+    LET r == EntRec(e) IN
+    r.exists =>
+        IF r.wal
+        THEN ToSet(r.keys) = r.snapver..(r.next - 1)
+        ELSE /\ ToSet(r.keys) = 0..(r.next - 1)
+             /\ Len(r.pre) = r.next - 1
+             /\ r.snapver <= r.next /\ r.cachever <= r.next
+
 Reset ==
     /\ IsEvent("reset")
+    /\ \A e \in Entities : IsWalEnt(e) => IsWal(e)
+    /\ \A e \in Entities : HasEnt(e) => ResetSane(e)
     /\ cmds' = [e \in Entities |-> ResetCmds(e)]
     /\ snap' = [e \in Entities |->
                  IF HasEnt(e) /\ EntRec(e).exists
-                 THEN ResetState(e, EntRec(e).snapver) ELSE None]
+                 THEN IF EntRec(e).wal THEN WalState(EntRec(e).snapver)
+                      ELSE ResetState(e, EntRec(e).snapver)
+                 ELSE None]
     /\ cache' = [e \in Entities |->
-                  IF HasEnt(e) /\ EntRec(e).exists
-                  THEN ResetState(e, EntRec(e).cachever) ELSE None]
+                  IF HasEnt(e) /\ EntRec(e).exists /\ EntRec(e).cached
+                  THEN IF EntRec(e).wal THEN WalState(EntRec(e).next)
+                       ELSE ResetState(e, EntRec(e).cachever)
+                  ELSE None]
     /\ hcache' = [e \in Entities |-> <<>>]
     /\ order' = [e \in Entities |->
-                  IF HasEnt(e) /\ EntRec(e).exists THEN ResetFull(e).eff
+                  IF HasEnt(e) /\ EntRec(e).exists
+                  THEN IF EntRec(e).wal THEN WalIdSeq(0, EntRec(e).next)
+                       ELSE ResetFull(e).eff
                   ELSE <<>>]
     /\ lock' = [e \in Entities |-> {}]
     /\ root' = {}
@@ -193,9 +220,10 @@ TFinal ==
     /\ Len(Line.keys) = Cardinality(DOMAIN cmds[e])
     /\ Line.other_keys = <<>>
     /\ Line.snap = (snap[e] # None)
-    /\ Exists(e) =>
+    /\ (Exists(e) /\ ~IsWal(e)) =>
          /\ Line.hist = HistRows(all)
          /\ Len(all) = StoredCount(e)
+    /\ Exists(e) =>
          /\ Line.live_ver = full.ver
          /\ Line.replay_ver = full.ver
          /\ Line.fresh_ver = full.ver
@@ -205,11 +233,79 @@ TFinal ==
          /\ Line.eq_fresh
     /\ UNCHANGED <<vars, hb>>
 
+-----------------------------------------------------------------------------
+(* Lines of the history driver (run-hist, C06): the public operations run  *)
+(* sequentially; at a check point every entity is observed from outside    *)
+(* (keys, snapshot version) and rebuilt twice.  The observation must be a  *)
+(* state the protocol can be in after whole operations: keys contiguous    *)
+(* and only ever appended, the snapshot a prefix state, and the three      *)
+(* versions and states (live, snapshot + later commands, full replay)      *)
+(* equal.                                                                  *)
+
+GenRec(v) == [kind |-> IF v = 0 THEN "init" ELSE "ok", id |-> SetupId(v),
+              actor |-> SetupThread]
+
+TStepLine == IsEvent("step") /\ ~Line.panic /\ UNCHANGED <<vars, hb>>
+TNote == IsEvent("note") /\ UNCHANGED <<vars, hb>>
+TObsApi == IsEvent("obs_api") /\ Line.ok /\ UNCHANGED <<vars, hb>>
+
+TObsAgg ==
+    LET e == Line.e
+        n == Len(Line.keys)
+        old == DOMAIN cmds[e]
+        cm == [v \in 0..(n - 1) |->
+                 IF v \in old THEN cmds[e][v] ELSE GenRec(v)]
+        full == ReplayFromIn(InitState, cm)
+    IN
+    /\ IsEvent("obs") /\ Line.kind = "agg" /\ ~IsWal(e)
+    /\ \A t \in Threads : pc[t] = "idle"
+    /\ n >= 1
+    /\ ToSet(Line.keys) = 0..(n - 1)
+    /\ old \subseteq 0..(n - 1)
+    /\ Line.snapver <= n
+    /\ snap[e] # None => Line.snapver >= snap[e].ver
+    /\ Line.live_ver = n /\ Line.fresh_ver = n /\ Line.replay_ver = n
+    /\ Line.ok
+    /\ cmds' = [cmds EXCEPT ![e] = cm]
+    /\ order' = [order EXCEPT ![e] = full.eff]
+    /\ snap' = [snap EXCEPT ![e] =
+                  IF Line.snapver = 0 THEN None
+                  ELSE ReplayToIn(InitState, cm, Line.snapver)]
+    /\ cache' = [cache EXCEPT ![e] = full]
+    /\ UNCHANGED <<hcache, lock, root, rootw, pc, ent, op, kind, loc,
+                   changed, cver, pend, res, before, nops, returned, exited,
+                   hb>>
+
+WalIds(a, b) == [i \in 1..(b - a) |-> SetupId(a + i - 1)]
+
+TObsWal ==
+    LET e == Line.e
+        n == Len(Line.keys)
+        r == Line.snapver
+        cm == [v \in r..(r + n - 1) |-> OkRec(SetupId(v), SetupThread)]
+        st == [ver |-> r, eff |-> WalIds(0, r)]
+    IN
+    /\ IsEvent("obs") /\ Line.kind = "wal" /\ IsWal(e)
+    /\ \A t \in Threads : pc[t] = "idle"
+    /\ ToSet(Line.keys) = r..(r + n - 1)
+    /\ snap[e] # None => /\ r >= snap[e].ver
+                          /\ r + n >= FullReplay(e).ver
+    /\ Line.live_ver = r + n /\ Line.fresh_ver = r + n
+    /\ Line.ok
+    /\ cmds' = [cmds EXCEPT ![e] = cm]
+    /\ snap' = [snap EXCEPT ![e] = st]
+    /\ order' = [order EXCEPT ![e] = WalIds(0, r + n)]
+    /\ cache' = [cache EXCEPT ![e] = ReplayFromIn(st, cm)]
+    /\ UNCHANGED <<hcache, lock, root, rootw, pc, ent, op, kind, loc,
+                   changed, cver, pend, res, before, nops, returned, exited,
+                   hb>>
+
 TraceNext ==
     \/ Reset \/ TBegin \/ TAcqRoot \/ TAcq \/ TLoad \/ TApply \/ TCheck
     \/ TProcess \/ TStore \/ TCache \/ TSnapshot \/ TRel \/ TRelRoot
     \/ TAddCheck \/ TAddStore \/ TAddCache \/ TAcqRootW \/ TRelRootW
     \/ THist \/ TFinal
+    \/ TStepLine \/ TNote \/ TObsApi \/ TObsAgg \/ TObsWal
 
 TraceSpec == TraceInit /\ [][TraceNext]_tvars
 
@@ -222,6 +318,12 @@ AppendOnlyStep ==
 TraceStepProps == [][NotReset => AppendOnlyStep]_tvars
 
 TraceInvariant == Safety
+
+\* The history driver is sequential: only the replay properties matter
+\* (and are cheap enough for traces over dozens of entities).
+HistInvariant ==
+    /\ TypeOK /\ LockDiscipline /\ VersionsContiguous
+    /\ ReplayEqSnapshotEqLive
 
 TraceAccepted ==
     LET d == TLCGet("stats").diameter IN
